@@ -276,3 +276,4 @@ fn c16_many_empty_and_garbage_first_record() {
     vcover!(true, "C16.cover.empty_and_garbage");
 }
 
+
